@@ -49,7 +49,7 @@ var errFlowKinds = []struct{ lean, file, typ string }{
 	{"consistentWrapper", "outputs/stream/internally_consistent_output_stream_wrapper.go", "InternallyConsistentOutputStreamWrapper"},
 }
 
-func recvTypeName(fd *ast.FuncDecl) string {
+func errflowRecvType(fd *ast.FuncDecl) string {
 	if fd.Recv == nil || len(fd.Recv.List) == 0 {
 		return ""
 	}
@@ -63,7 +63,7 @@ func recvTypeName(fd *ast.FuncDecl) string {
 	return ""
 }
 
-func calleeName(c *ast.CallExpr) string {
+func errflowCallee(c *ast.CallExpr) string {
 	if sel, ok := c.Fun.(*ast.SelectorExpr); ok {
 		return sel.Sel.Name
 	}
@@ -82,7 +82,7 @@ func sitesInFunc(kind string, fd *ast.FuncDecl) []errSite {
 		case *ast.AssignStmt:
 			for i, rhs := range s.Rhs {
 				c, ok := rhs.(*ast.CallExpr)
-				if !ok || !errReturning[calleeName(c)] {
+				if !ok || !errReturning[errflowCallee(c)] {
 					continue
 				}
 				// the error is the last value of the call; find the LHS that receives it
@@ -98,12 +98,12 @@ func sitesInFunc(kind string, fd *ast.FuncDecl) []errSite {
 				used[c] = true
 			}
 		case *ast.SendStmt:
-			if c, ok := s.Value.(*ast.CallExpr); ok && errReturning[calleeName(c)] {
+			if c, ok := s.Value.(*ast.CallExpr); ok && errReturning[errflowCallee(c)] {
 				used[c] = true // handed to another goroutine, which checks it
 			}
 		case *ast.ReturnStmt:
 			for _, r := range s.Results {
-				if c, ok := r.(*ast.CallExpr); ok && errReturning[calleeName(c)] {
+				if c, ok := r.(*ast.CallExpr); ok && errReturning[errflowCallee(c)] {
 					used[c] = true
 				}
 			}
@@ -112,10 +112,10 @@ func sitesInFunc(kind string, fd *ast.FuncDecl) []errSite {
 	})
 	ast.Inspect(fd.Body, func(n ast.Node) bool {
 		c, ok := n.(*ast.CallExpr)
-		if !ok || !errReturning[calleeName(c)] {
+		if !ok || !errReturning[errflowCallee(c)] {
 			return true
 		}
-		callee := calleeName(c)
+		callee := errflowCallee(c)
 		if callee == "Err" {
 			// only scanner-like `x.Err()` with no arguments on a local (sc, scanner, ctx excluded)
 			if sel, ok := c.Fun.(*ast.SelectorExpr); ok {
@@ -145,7 +145,7 @@ func init() {
 			found := false
 			for _, d := range f.Decls {
 				fd, ok := d.(*ast.FuncDecl)
-				if !ok || fd.Body == nil || recvTypeName(fd) != k.typ {
+				if !ok || fd.Body == nil || errflowRecvType(fd) != k.typ {
 					continue
 				}
 				if fd.Name.Name != "Run" && fd.Name.Name != "Evaluate" {
